@@ -3,7 +3,7 @@ Used by cxx2c.py.  Nothing here guesses: unknown shapes raise LoweringError."""
 import json, os, subprocess, hashlib, sys, re
 
 REPO = os.environ.get('VERIF_REPO', '/repo')
-CACHE = os.environ.get('VERIF_CACHE', '/verif/build/astcache')
+CACHE = os.environ.get('VERIF_CACHE') or os.path.join(os.environ.get('VERIF_BUILD') or '/verif/build', 'astcache')
 
 
 class LoweringError(Exception):
